@@ -57,6 +57,8 @@ def generate(check, rng, tier, run_index):
         pre = rng.weighted([('absent', 2), ('valid_short', 3), ('valid_long', 4), ('empty', 1), ('junk', 2)])
         stem = rng.choice(['p%d', 'p%d', 'Traj_%d', 'RUN%d', 'my.run-%d', 'run %d', 'sn%d.out'])      # upper case, dots, dashes, blanks and a second extension-like part are deliberate
         ent = {'name': (stem % k) + '.' + ext, 'ext': ext, 'pre': pre, 'pre_frames': 1 if pre == 'valid_short' else rng.randint(3, 6)}
+        if pre != 'absent' and ext != 'dtr' and rng.chance(0.12):
+            ent['link'] = True       # what exists at the path is a symbolic link to the file (kept in another directory)
         if ext in RESTART and rng.chance(0.6):
             # numbered files name.N left by an earlier multi-frame save of n frames (zero-padded when n >= 10) -- all of
             # them, or only some (the others were deleted by the user): only the last, only one in the middle, a few
@@ -72,7 +74,8 @@ def generate(check, rng, tier, run_index):
         if kind == 'save':
             # zero frames: what a selection like t[t.time > tmax] hands to save() when nothing matches
             ops.append({'op': 'save', 'p': p, 'frames': rng.weighted([(1, 8), (2, 6), (3, 4), (rng.randint(4, 12), 4), (10, 2), (0, 1)]),
-                        'fo': rng.chance(0.5), 'seed': rng.below(1 << 20), 'fo_as': rng.weighted([('bool', 5), ('np', 2), ('int', 1)])})
+                        'fo': rng.chance(0.5), 'seed': rng.below(1 << 20), 'fo_as': rng.weighted([('bool', 5), ('np', 2), ('int', 1)]),
+                        'cell': rng.choice([None, 'ortho', 'ortho', 'tric'])})      # trajectories without a unit cell take other branches of several writers
         elif kind == 'open_w':
             ops.append({'op': 'open_w', 'p': p, 'fo': rng.chance(0.5), 'then': rng.choice(['close', 'write_close', 'write_close']),
                         'frames': rng.randint(1, 3), 'seed': rng.below(1 << 20), 'fo_as': rng.weighted([('bool', 5), ('np', 2), ('int', 1)])})
@@ -127,8 +130,11 @@ def full_diff(before, after):
     return bad
 
 
-def _traj(n_frames, seed):
-    t = fmts.make_traj(n_frames, N_ATOMS, 'ortho', seed)
+def _traj(n_frames, seed, cell='ortho', ext=None):
+    if cell != 'ortho' and ext is not None:
+        F = fmts.FORMATS.get(OPENW_FMT.get(ext, ext))
+        cell = fmts.cell_for(OPENW_FMT.get(ext, ext), cell) if F is not None else cell      # what the format can carry
+    t = fmts.make_traj(n_frames, N_ATOMS, cell, seed)
     return t
 
 
@@ -207,6 +213,7 @@ def _execute(check, case, workdir):
         res.probe('relative_paths')
     top = fmts.make_topology(N_ATOMS)
     state = {}     # path index -> {'valid': bool, 'n': frames}  (what the model believes is at the path)
+    link_store = {}  # path index -> the file a symbolic link at the path points to (part of "the existing file", also when overwritten)
 
     # ---- pre-existing entries
     for k, ent in enumerate(case['paths']):
@@ -253,6 +260,13 @@ def _execute(check, case, workdir):
             else:
                 with open(p, 'wb') as f:
                     f.write((b'unrelated bytes \x00\x01\x02 ' * 40)[: 100 + 37 * k])
+        if ent.get('link') and os.path.lexists(p) and not os.path.isdir(p):
+            store = os.path.join(pathroot, '_store')
+            os.makedirs(store, exist_ok=True)
+            os.rename(p, os.path.join(store, ent['name']))
+            os.symlink(os.path.join('_store', ent['name']), p)
+            link_store[k] = os.path.join(root, '_store', ent['name'])
+            res.probe('path_is_a_symbolic_link')
         state[k] = st
 
     def viol(op, kind, detail, stepno, flags):
@@ -280,7 +294,9 @@ def _execute(check, case, workdir):
             res.probe('overwrite_flag_not_a_python_bool')
         if kind == 'save':
             n = op['frames']
-            t = _traj(n, op['seed'])
+            t = _traj(n, op['seed'], op.get('cell', 'ortho'), ext)
+            if t.unitcell_lengths is None:
+                res.probe('saved_trajectory_without_cell')
             targets = _targets(p, ext, n)
             exists = [x for x in targets if os.path.lexists(x)]
             pre_kind = 'fresh' if not exists else ('valid' if state[op['p']]['valid'] else 'nonvalid')
@@ -315,7 +331,7 @@ def _execute(check, case, workdir):
                 shutil.rmtree(fresh)
             os.makedirs(fresh)
             fp = os.path.join(fresh, ent['name'])
-            _traj(n, op['seed']).save(fp)
+            _traj(n, op['seed'], op.get('cell', 'ortho'), ext).save(fp)
             ftargets = _targets(fp, ext, n)
             diffs = _same_as_fresh(root, fresh, list(zip(targets, ftargets)))
             if exists:
@@ -342,6 +358,8 @@ def _execute(check, case, workdir):
             for x in targets:
                 mine.update(_under(root, before, x))
                 mine.update(_under(root, after, x))
+            if op['p'] in link_store:
+                mine.update(_under(root, before, link_store[op['p']]))      # an overwrite may replace the link or write through it
             others = content_diff({k: v for k, v in before.items() if k not in mine}, after)
             if others:
                 viol('save', 'other_entry_modified', {'changed': others[:5]}, stepno, flags)
@@ -404,6 +422,8 @@ def _execute(check, case, workdir):
                 state[op['p']] = {'valid': False, 'n': 0}
                 continue
             mine = set(_under(root, before, p)) | set(_under(root, after, p))
+            if op['p'] in link_store:
+                mine.update(_under(root, before, link_store[op['p']]))
             others = content_diff({k: v for k, v in before.items() if k not in mine}, after)
             if others:
                 viol('open_w', 'other_entry_modified', {'changed': others[:5]}, stepno, flags)
